@@ -53,6 +53,14 @@ def scenarios(tier):
                         "threads": {"T%d" % (i + 1): [MENU[x]] for i, x in enumerate(tri)}})
         out.append({"name": "M1;R||M2 doc absent", "init": "empty", "formats": FORMATS, "pids": ("p1",),
                     "threads": {"T1": [MENU["M1"], MENU["R"]], "T2": [MENU["M2"]]}})
+    from .c08 import faulted_scenarios
+    for sp in faulted_scenarios(tier):
+        if not all(op[0] in ("store_meta", "delete_meta") for prog in sp["threads"].values() for op in prog):
+            continue
+        sp = {k: v for k, v in sp.items() if k not in ("judge", "followups")}
+        sp["pids"] = ("p1",)
+        sp["formats"] = FORMATS
+        out.append(sp)
     for s in out:
         s["observer"] = True
         # the instance is used on afterwards: a delete-all must leave no document of the pid, as after a sequential order
@@ -80,8 +88,8 @@ def line_level_scenarios(tier, base):
         sp["after"] = True
     out = []
     for sp in list(base) + extra:
-        if len(sp["threads"]) != 2 or any(len(v) != 1 for v in sp["threads"].values()):
-            continue
+        if len(sp["threads"]) != 2 or any(len(v) != 1 for v in sp["threads"].values()) or sp.get("faults"):
+            continue  # (engine L injects no faults)
         sp = {k: v for k, v in sp.items() if k != "observer"}
         out += tscen.line_level(sp, "line", 1 if tier == "quick" else 2)
         if tier == "thorough" and "present" in sp["name"]:
